@@ -81,9 +81,13 @@ func loadCorpus(verif string) []corpusEntry {
 			}
 		}
 	}
-	// independently seeded changes (thorough tier only; never controls)
+	// independently seeded changes, and the single-site mutants of the mutation campaigns that the tests do not
+	// notice and the checker reports (thorough tier only; never quick controls)
 	metas, _ := filepath.Glob(filepath.Join(verif, "seeded", "*", "meta.json"))
 	sort.Strings(metas)
+	mmetas, _ := filepath.Glob(filepath.Join(verif, "mutation", "controls", "*", "meta.json"))
+	sort.Strings(mmetas)
+	metas = append(metas, mmetas...)
 	for _, m := range metas {
 		b, err := os.ReadFile(m)
 		if err != nil {
@@ -98,7 +102,11 @@ func loadCorpus(verif string) []corpusEntry {
 			continue
 		}
 		for prop, rules := range meta.DetectedBy {
-			out = append(out, corpusEntry{ID: "seeded/" + meta.ID, File: "patch.diff", Properties: []string{prop}, ExpectRules: rules, Note: meta.Summary, dir: filepath.Dir(m)})
+			prefix := "seeded/"
+			if strings.Contains(m, string(filepath.Separator)+"mutation"+string(filepath.Separator)) {
+				prefix = "mutation/"
+			}
+			out = append(out, corpusEntry{ID: prefix + meta.ID, File: "patch.diff", Properties: []string{prop}, ExpectRules: rules, Note: meta.Summary, dir: filepath.Dir(m)})
 		}
 	}
 	return out
